@@ -8,8 +8,8 @@ patch = src+"/patch.diff"
 shutil.copy(patch, dst+"/patch.diff")
 for f in os.listdir(src+"/demo"): shutil.copy(src+"/demo/"+f, dst+"/demo/"+f)
 shutil.copy(src+"/README.md", dst+"/AGENT_README.md")
-prop=[json.loads(l) for l in open('/verif/properties.jsonl') if json.loads(l)['id']==sid][0]
-meta={"property": sid, "title": prop["title"], "origin": "independent sub-agent that saw only this property's text and a scratch worktree of /repo",
+prop=[json.loads(l) for l in open('/verif/properties.jsonl') if json.loads(l)['id']==sid[:3]][0]
+meta={"property": sid[:3], "seed_id": sid, "title": prop["title"], "origin": "independent sub-agent that saw only this property's text and a scratch worktree of /repo",
       "needs_to_manifest": needs, "demo_intended_path": demo_path,
       "confirmed_by_me": "scratch worktree /tmp/seed/%s: original 36 tests pass with the patch; the demonstration fails with the patch and passes without (confirm_seed.sh)"%sid,
       "applies_to_repo_head": subprocess.run(["git","-C","/repo","rev-parse","--short","HEAD"],capture_output=True,text=True).stdout.strip()}
